@@ -511,12 +511,24 @@ def subterms(t, seen=None):
 
 
 def free_consts(ts):
+    """Uninterpreted constants of the terms, plus bound-variable symbols that occur free
+    (a spec quantifier's variable seen from inside its body): both get declared."""
     out = {}
     seen = set()
+    bound_names = set()
+    bvars_seen = {}
     for t in ts:
         for x in subterms(t, seen):
             if x.op == 'const':
                 out[x.args[0]] = x.sort
+            elif x.op == 'bvar':
+                bvars_seen[x.args[0]] = x.sort
+            elif x.op in ('forall', 'exists'):
+                for v in x.args[0]:
+                    bound_names.add(v.args[0])
+    for n, srt in bvars_seen.items():
+        if n not in bound_names:
+            out[n] = srt
     return out
 
 
